@@ -417,9 +417,50 @@ func ZZ_C08_memdb_zero_flags() {
 // ZZ_C08_memdb_iter_bounds: every key independently absent / live / tombstone / flags-only, then
 // Iter and IterReverse with arbitrary bounds of up to two symbolic bytes (absent bound = nil)
 // against the model, on both trees.
-func ZZ_C08_memdb_iter_bounds() {
+func ZZ_C08_memdb_iter_bounds() { zzIterBounds(nil) }
+
+// ZZ_C08_memdb_iter_bounds_long_prefix: keys and bounds behind a common prefix of 24 bytes - longer
+// than the 20 bytes an ART node stores of a compressed path, so that seeking has to consult a leaf
+// for the rest of the prefix. Symbolic key bytes behind such a prefix make the engine concretise
+// mismatch positions through queries that z3 4.8.12 does not finish (DESIGN 7.8), so keys and bounds
+// are taken from small concrete tables here (keys P+a, P+al, P+b; each bound absent or one of P[:10],
+// P, P+a, P+al, P+alz, P+am, P+b, P+c) and only the values are symbolic.
+func ZZ_C08_memdb_iter_bounds_long_prefix() {
+	P := "ppppppppppppppppppppqqqq"
+	keys := [][]byte{[]byte(P + "a"), []byte(P + "al"), []byte(P + "b")}
+	m := &zzModel{keys: keys, k: make([]zzMKey, len(keys))}
+	art, rbt := newArtDBWithContext(), newRbtDBWithContext()
+	for i := range keys {
+		switch zzChoice("state", 4) {
+		case 1:
+			v := zzBytesN("v", 1)
+			zzAssert(art.Set(keys[i], v) == nil && rbt.Set(keys[i], v) == nil, "bounds-long.set-no-error")
+			m.set(i, v)
+		case 2:
+			zzAssert(art.Delete(keys[i]) == nil && rbt.Delete(keys[i]) == nil, "bounds-long.delete-no-error")
+			m.set(i, []byte{})
+		case 3:
+			art.UpdateFlags(keys[i], kv.SetKeyLocked)
+			rbt.UpdateFlags(keys[i], kv.SetKeyLocked)
+			m.updateFlags(i, kv.SetKeyLocked)
+		}
+	}
+	table := [][]byte{nil, []byte(P[:10]), []byte(P), []byte(P + "a"), []byte(P + "al"), []byte(P + "alz"), []byte(P + "am"), []byte(P + "b"), []byte(P + "c")}
+	lo := table[zzChoice("lo", len(table))]
+	hi := table[zzChoice("hi", len(table))]
+	zzAssume(lo != nil || hi != nil)
+	a := zzObserve(art, m, lo, hi)
+	zzAssert(a.boundOK, "art.iter-bounds-long-prefix")
+	r := zzObserve(rbt, m, lo, hi)
+	zzAssert(r.boundOK, "rbt.iter-bounds-long-prefix")
+}
+
+func zzIterBounds(prefix []byte) {
 	nkeys := zzParam("bounds_keys", 3)
 	keys := zzMemdbKeys(nkeys)
+	for i := range keys {
+		keys[i] = append(append([]byte{}, prefix...), keys[i]...)
+	}
 	m := &zzModel{keys: keys, k: make([]zzMKey, nkeys)}
 	art, rbt := newArtDBWithContext(), newRbtDBWithContext()
 	for i := range keys {
@@ -437,13 +478,17 @@ func ZZ_C08_memdb_iter_bounds() {
 			m.updateFlags(i, kv.SetKeyLocked)
 		}
 	}
-	var lo, hi []byte
-	if zzChoice("lo.nil", 2) == 0 {
-		lo = zzBytes("lo", 2)
+	bound := func(nilName, name, shortName string) []byte {
+		if zzChoice(nilName, 2) == 1 {
+			return nil
+		}
+		if len(prefix) > 0 && zzChoice(shortName, 2) == 1 {
+			return append([]byte{}, prefix[:10]...)
+		}
+		return append(append([]byte{}, prefix...), zzBytes(name, 2)...)
 	}
-	if zzChoice("hi.nil", 2) == 0 {
-		hi = zzBytes("hi", 2)
-	}
+	lo := bound("lo.nil", "lo", "lo.short")
+	hi := bound("hi.nil", "hi", "hi.short")
 	// an absent bound is nil here; the empty non-nil bound is ZZ_C08_memdb_empty_bound
 	zzAssume((lo == nil || len(lo) > 0) && (hi == nil || len(hi) > 0))
 	zzAssume(lo != nil || hi != nil)
@@ -643,4 +688,31 @@ func ZZ_C08_memdb_fanout() {
 	zzAssert(okOrder, "fanout.art.iter-strictly-monotone")
 	zzAssert(okAll, "fanout.art.iter-complete")
 	zzAssert(okSame, "fanout.art-rbt-iterate-alike")
+}
+
+// ZZ_C08_reset_reuse: Reset returns a buffer to the empty map whatever it went through before -
+// node growth (which puts the outgrown nodes on the allocator's free lists), staging - and the
+// buffer is fully usable afterwards: new writes are readable, counted and iterated, on both trees.
+func ZZ_C08_reset_reuse() {
+	sizes := []int{2, 5, 17}
+	n := sizes[zzChoice("children", len(sizes))]
+	art, rbt := newArtDBWithContext(), newRbtDBWithContext()
+	for i := 0; i < n; i++ {
+		k, v := []byte{7, byte(i*5 + 1)}, []byte{byte(i + 1)}
+		zzAssert(art.Set(k, v) == nil && rbt.Set(k, v) == nil, "reset.setup")
+	}
+	art.Reset()
+	rbt.Reset()
+	zzAssert(art.Len() == 0 && rbt.Len() == 0 && art.Size() == 0 && rbt.Size() == 0, "reset.empty-accounting")
+	keys := zzMemdbKeys(2)
+	m := &zzModel{keys: keys, k: make([]zzMKey, 2)}
+	for i := range keys {
+		v := zzBytesN("v", 1)
+		zzAssert(art.Set(keys[i], v) == nil && rbt.Set(keys[i], v) == nil, "reset.write-after-reset")
+		m.set(i, v)
+	}
+	a := zzObserve(art, m, nil, nil)
+	r := zzObserve(rbt, m, nil, nil)
+	zzAssert(a.getOK && a.lenOK && a.sizeOK && a.iterOK && a.revOK, "reset.art-is-the-new-map")
+	zzAssert(r.getOK && r.lenOK && r.sizeOK && r.iterOK && r.revOK, "reset.rbt-is-the-new-map")
 }
